@@ -75,7 +75,9 @@ def upd (f : Tid → RPc) (t : Tid) (v : RPc) : Tid → RPc := fun t' => if t' =
 /-- operations begun by the writer -/
 def started (st : St) : Nat := if st.wpc = .idle then st.pos else st.pos + 1
 
-def step (H : Hasher) (ops : List Op) (st : St) : Act → Option St
+/-- `atomic = false`: the code as it is (AddWithReplicas = Remove's critical section, then a second one);
+`atomic = true`: after fixes/C15-add-single-critical-section.patch (removal and insertion under one lock). -/
+def step (H : Hasher) (atomic : Bool) (ops : List Op) (st : St) : Act → Option St
   | .w =>
     match st.wpc with
     | .idle =>
@@ -87,7 +89,10 @@ def step (H : Hasher) (ops : List Op) (st : St) : Act → Option St
     | .holdRemove n c =>
       match c with
       | none => some { st with s := remove H st.s n, wlock := false, wpc := .idle, pos := st.pos + 1 }
-      | some r => some { st with s := remove H st.s n, wlock := false, wpc := .wantInsert n r }
+      | some r =>
+        if atomic then
+          some { st with s := insertPhase H (remove H st.s n) n r, wlock := false, wpc := .idle, pos := st.pos + 1 }
+        else some { st with s := remove H st.s n, wlock := false, wpc := .wantInsert n r }
     | .wantInsert n r =>
       if st.wlock = false ∧ st.holders = [] then some { st with wlock := true, wpc := .holdInsert n r } else none
     | .holdInsert n r =>
@@ -113,8 +118,8 @@ def init (R0 : Int) : St :=
   { s := CH.new R0, wlock := false, holders := [], wpc := .idle, pos := 0, rpc := fun _ => .idle, log := [] }
 
 /-- a schedule: disabled actions are skipped (a blocked goroutine does not move) -/
-def exec (H : Hasher) (ops : List Op) (st : St) (sched : List Act) : St :=
-  sched.foldl (fun st a => (step H ops st a).getD st) st
+def exec (H : Hasher) (atomic : Bool) (ops : List Op) (st : St) (sched : List Act) : St :=
+  sched.foldl (fun st a => (step H atomic ops st a).getD st) st
 
 /-! ### what a returned Get is explained by -/
 
@@ -189,8 +194,8 @@ theorem all_idle {H : Hasher} {R0 : Int} {ops : List Op} {st : St} (g : Good H R
     rw [g.excl (g.hold hh)] at this
     cases this
 
-theorem good_step (H : Hasher) (R0 : Int) (ops : List Op) (st st' : St) (a : Act)
-    (g : Good H R0 ops st) (h : step H ops st a = some st') : Good H R0 ops st' := by
+theorem good_step (H : Hasher) (atomic : Bool) (R0 : Int) (ops : List Op) (st st' : St) (a : Act)
+    (g : Good H R0 ops st) (h : step H atomic ops st a = some st') : Good H R0 ops st' := by
   cases a with
   | w =>
     simp only [step] at h
@@ -249,15 +254,27 @@ theorem good_step (H : Hasher) (R0 : Int) (ops : List Op) (st st' : St) (a : Act
         · intro _; rfl
         · intro t; simp only [hidle t, ReaderOK]
       | some r =>
-        simp only [Option.some.injEq] at h
-        subst h
-        refine ⟨g.pos, ?_, ?_, ?_, ?_, g.mem, ?_, g.log⟩
-        · simp only [ViewOK]
-          exact ⟨by rw [hs], op, hop, hsplit⟩
-        · intro h; cases h
-        · simp [holding]
-        · intro _; rfl
-        · intro t; simp only [hidle t, ReaderOK]
+        cases atomic with
+        | true =>
+          simp only [if_true, Option.some.injEq] at h
+          subst h
+          refine ⟨hlt, ?_, ?_, ?_, ?_, g.mem, ?_, g.log⟩
+          · simp only [ViewOK]
+            rw [take_succ_run H R0 ops st.pos op hop, step_eq_split, run_replicas, hsplit, hs]
+          · intro h; cases h
+          · simp [holding]
+          · intro _; rfl
+          · intro t; simp only [hidle t, ReaderOK]
+        | false =>
+          simp only [Bool.false_eq_true, if_false, Option.some.injEq] at h
+          subst h
+          refine ⟨g.pos, ?_, ?_, ?_, ?_, g.mem, ?_, g.log⟩
+          · simp only [ViewOK]
+            exact ⟨by rw [hs], op, hop, hsplit⟩
+          · intro h; cases h
+          · simp [holding]
+          · intro _; rfl
+          · intro t; simp only [hidle t, ReaderOK]
     | wantInsert n r =>
       rw [hw] at h
       simp only at h
@@ -413,16 +430,112 @@ theorem good_step (H : Hasher) (R0 : Int) (ops : List Op) (st st' : St) (a : Act
             rw [hrd.2, hs]
         · exact g.log e he
 
-theorem good_exec (H : Hasher) (R0 : Int) (ops : List Op) (sched : List Act) :
-    ∀ st, Good H R0 ops st → Good H R0 ops (exec H ops st sched) := by
+theorem good_exec (H : Hasher) (atomic : Bool) (R0 : Int) (ops : List Op) (sched : List Act) :
+    ∀ st, Good H R0 ops st → Good H R0 ops (exec H atomic ops st sched) := by
   induction sched with
   | nil => intro st g; exact g
   | cons a rest ih =>
     intro st g
     simp only [exec, List.foldl_cons]
     apply ih
-    cases h : step H ops st a with
+    cases h : step H atomic ops st a with
     | none => simpa using g
-    | some st' => simpa using good_step H R0 ops st st' a g h
+    | some st' => simpa using good_step H atomic R0 ops st st' a g h
+
+/-! ### the one-critical-section form: no intermediate state, every Get is linearizable -/
+
+def Linear (H : Hasher) (R0 : Int) (ops : List Op) (e : Obs) : Prop :=
+  ∃ j, e.lo ≤ j ∧ j ≤ e.hi ∧ e.o = get H (run H R0 (ops.take j)) e.k
+
+def noMid : WPc → Bool
+  | .wantInsert _ _ => false
+  | .holdInsert _ _ => false
+  | _ => true
+
+structure GoodAtomic (H : Hasher) (R0 : Int) (ops : List Op) (st : St) : Prop where
+  good : Good H R0 ops st
+  nomid : noMid st.wpc = true
+  lin : ∀ e ∈ st.log, Linear H R0 ops e
+
+theorem goodAtomic_step (H : Hasher) (R0 : Int) (ops : List Op) (st st' : St) (a : Act)
+    (g : GoodAtomic H R0 ops st) (h : step H true ops st a = some st') : GoodAtomic H R0 ops st' := by
+  have g' := good_step H true R0 ops st st' a g.good h
+  have hn := g.nomid
+  cases a with
+  | w =>
+    simp only [step] at h
+    cases hw : st.wpc with
+    | idle =>
+      rw [hw] at h; simp only at h
+      cases hop : ops[st.pos]? with
+      | none => rw [hop] at h; cases h
+      | some op => rw [hop] at h; simp only [Option.some.injEq] at h; subst h; exact ⟨g', rfl, g.lin⟩
+    | wantRemove n c =>
+      rw [hw] at h; simp only at h
+      split at h
+      · simp only [Option.some.injEq] at h; subst h; exact ⟨g', rfl, g.lin⟩
+      · cases h
+    | holdRemove n c =>
+      rw [hw] at h; simp only at h
+      cases c with
+      | none => simp only [Option.some.injEq] at h; subst h; exact ⟨g', rfl, g.lin⟩
+      | some r => simp only [if_true, Option.some.injEq] at h; subst h; exact ⟨g', rfl, g.lin⟩
+    | wantInsert n r => rw [hw] at hn; cases hn
+    | holdInsert n r => rw [hw] at hn; cases hn
+  | rget t k =>
+    simp only [step] at h
+    cases hr : st.rpc t with
+    | idle =>
+      rw [hr] at h; simp only at h
+      split at h
+      · simp only [Option.some.injEq] at h; subst h; exact ⟨g', hn, g.lin⟩
+      · cases h
+    | locked _ _ => rw [hr] at h; cases h
+    | checked _ _ _ => rw [hr] at h; cases h
+    | done _ _ _ => rw [hr] at h; cases h
+  | r t =>
+    simp only [step] at h
+    have hrd := g.good.reader t
+    cases hr : st.rpc t with
+    | idle => rw [hr] at h; cases h
+    | locked k lo => rw [hr] at h; simp only [Option.some.injEq] at h; subst h; exact ⟨g', hn, g.lin⟩
+    | checked k lo b => rw [hr] at h; simp only [Option.some.injEq] at h; subst h; exact ⟨g', hn, g.lin⟩
+    | done k lo o =>
+      rw [hr] at h hrd
+      simp only [Option.some.injEq] at h
+      subst h
+      simp only [ReaderOK] at hrd
+      refine ⟨g', hn, ?_⟩
+      intro e he
+      simp only [List.mem_cons] at he
+      rcases he with rfl | he
+      · have hv := g.good.view
+        unfold Linear
+        simp only [started]
+        cases hw : st.wpc with
+        | idle =>
+          simp only [ViewOK, hw] at hv
+          exact ⟨st.pos, hrd.1, by simp, by rw [hrd.2, hv]⟩
+        | wantRemove n c =>
+          simp only [ViewOK, hw] at hv
+          exact ⟨st.pos, hrd.1, by simp, by rw [hrd.2, hv.1]⟩
+        | holdRemove n c =>
+          simp only [ViewOK, hw] at hv
+          exact ⟨st.pos, hrd.1, by simp, by rw [hrd.2, hv.1]⟩
+        | wantInsert n r => rw [hw] at hn; cases hn
+        | holdInsert n r => rw [hw] at hn; cases hn
+      · exact g.lin e he
+
+theorem goodAtomic_exec (H : Hasher) (R0 : Int) (ops : List Op) (sched : List Act) :
+    ∀ st, GoodAtomic H R0 ops st → GoodAtomic H R0 ops (exec H true ops st sched) := by
+  induction sched with
+  | nil => intro st g; exact g
+  | cons a rest ih =>
+    intro st g
+    simp only [exec, List.foldl_cons]
+    apply ih
+    cases h : step H true ops st a with
+    | none => simpa using g
+    | some st' => simpa using goodAtomic_step H R0 ops st st' a g h
 
 end GoZero.C15.Conc
